@@ -600,13 +600,18 @@ C14(T) ==
                       exempt == f.k = "abandon" /\ inProgress IN
                   (IF ~exempt /\ f.k # code THEN B("callback-kind-differs-from-the-configured-handler-code", f) ELSE {})
                   \cup (IF ~f.tid.set \/ f.tid.seq # e.pre.tseq THEN B("callback-with-wrong-or-missing-transaction-id", f) ELSE {})
-                  \cup (IF \E m \in DOMAIN e.flt : m # k /\ e.flt[m].cond = f.cond /\ ~exempt /\ ~(e.flt[m].k = "abandon" /\ inProgress)
+                  \* (an ignored fault may legitimately be declared again by a later evaluation in the same call - advancement and
+                  \* step handler, packet and timer - so the "invoked once" clause is judged for cancelling / abandoning codes, after
+                  \* which the same condition cannot be declared again; repeated ignore callbacks are left to conformance)
+                  \cup (IF code # "ignore" /\ ~exempt /\ \E m \in DOMAIN e.flt : m # k /\ e.flt[m].cond = f.cond /\ e.flt[m].k = f.k
                         THEN B("more-than-one-callback-for-one-fault", f) ELSE {})
                   \* the effect
-                  \cup (IF ~exempt /\ f.k = "ignore" /\ code = "ignore" /\ e.post.state # "BUSY" /\ e.exc = "none"
-                           /\ (~\E m \in DOMAIN e.flt : e.flt[m].k # "ignore")
-                           /\ ~(e.side = "D" /\ \E m \in DOMAIN e.ind : e.ind[m].k = "finished")
-                        THEN B("ignored-fault-ended-the-transaction", f) ELSE {})
+                  \* ignore: the transaction continues - it is not cancelled with that condition (it may well complete regularly
+                  \* in the same call) and nothing is raised
+                  \cup (IF ~exempt /\ f.k = "ignore" /\ code = "ignore"
+                           /\ (\/ \E m \in DOMAIN e.out : e.out[m].t \in {"EOF", "FIN"} /\ e.out[m].cond = f.cond
+                               \/ \E m \in DOMAIN e.ind : e.ind[m].k = "finished" /\ e.ind[m].cond = f.cond)
+                        THEN B("ignored-fault-cancelled-the-transaction", f) ELSE {})
                   \cup (IF ~exempt /\ f.k = "abandon" /\ code = "abandon" /\ (e.post.state # "IDLE" \/ e.exc # "none")
                         THEN B("abandoned-transaction-not-idle-or-call-raised", f) ELSE {})
                   \cup (IF ~exempt /\ ~inProgress /\ f.k = "cancel" /\ code = "cancel" /\ e.side = "S" /\ e.exc = "none"
